@@ -63,3 +63,22 @@ Proof.
   link_cases m s d; intro H; try discriminate H; (split; [discriminate|]);
     first [ left; discriminate | right; split; [reflexivity|]; split; [unfold produced; rewrite ?Heqc; reflexivity | eexists; reflexivity] ].
 Qed.
+
+(* ---------- entries whose kind changes between runs ---------- *)
+Theorem sync_any_never_writes_through m e d : snd (sync_any true m e d) = false.
+Proof. destruct e as [s|c|]; cbn; [apply never_writes_through | destruct d; reflexivity | destruct d; reflexivity]. Qed.
+
+Theorem resync_any_never_writes_through m : forall hist d, snd (resync_any true m hist d) = false.
+Proof.
+  induction hist as [|e h IH]; intro d; [reflexivity|]. cbn [resync_any].
+  destruct (sync_any true m e d) as [d1 w1] eqn:E1. destruct (resync_any true m h d1) as [d2 w2] eqn:E2. cbn [snd].
+  pose proof (sync_any_never_writes_through m e d) as H1. rewrite E1 in H1. cbn in H1.
+  pose proof (IH d1) as H2. rewrite E2 in H2. cbn in H2. subst. reflexivity.
+Qed.
+
+(* a regular file entry ends up as a regular file with the source's content over anything but a directory, a directory entry as a
+   directory over anything but a regular file *)
+Theorem file_entry_result m c d : d <> DDir -> fst (sync_any true m (SAFile c) d) = DFile c.
+Proof. destruct d; cbn; intro H; try reflexivity; contradiction. Qed.
+Theorem dir_entry_result m d : (forall c, d <> DFile c) -> fst (sync_any true m SADir d) = DDir.
+Proof. destruct d as [|t|c|]; cbn; intro H; try reflexivity. exfalso. apply (H c). reflexivity. Qed.
